@@ -33,10 +33,47 @@ func e2eDeadline(carrier string, n int) time.Duration {
 	return d
 }
 
+// sweep: one logical connection, every write size from..to (step) in turn, each echoed back intact before the next
+func runSweep(carrier string, from, to, step int, seed uint64) (string, string) {
+	rig, err := NewRig(RigOpts{Carrier: carrier, Insecure: true})
+	if err != nil {
+		return "fail:rig", err.Error()
+	}
+	defer rig.Close()
+	c, err := rig.Dial("echo")
+	if err != nil {
+		return "fail:dial", err.Error()
+	}
+	defer c.Close()
+	dl := e2eDeadline(carrier, to)
+	total := 0
+	for n := from; n <= to; n += step {
+		data := payload(seed+uint64(n), n)
+		if err := writeParts(c, data, 0, dl); err != nil {
+			return "fail:write", fmt.Sprintf("write of %d bytes (after %d bytes in earlier writes): %v", n, total, err)
+		}
+		got, err := readFullDeadline(c, n, dl)
+		if err != nil {
+			return "fail:read", fmt.Sprintf("a single write of %d bytes was not echoed (after %d bytes in earlier writes): %v", n, total, err)
+		}
+		if !bytes.Equal(got, data) {
+			return "down-mismatch", fmt.Sprintf("echo of the %d-byte write differs", n)
+		}
+		total += n
+	}
+	return "ok", ""
+}
+
 func runBytes(carrier, mode string, n, part int, seed uint64) (string, string) {
+	if mode == "sweep" {
+		// n = last size, part = first size, step 1
+		return runSweep(carrier, part, n, 1, seed)
+	}
 	tmode := "echo"
 	if mode == "up" {
 		tmode = "sink"
+	} else if mode == "upslow" {
+		tmode = "slowsink:3500"
 	} else if mode == "down" {
 		tmode = fmt.Sprintf("source:%d:%d", n, seed)
 	}
@@ -76,7 +113,10 @@ func runBytes(carrier, mode string, n, part int, seed uint64) (string, string) {
 			return "up-mismatch", fmt.Sprintf("target saw %d bytes hash %s", tn, th)
 		}
 		return "ok", ""
-	case "up":
+	case "up", "upslow":
+		if mode == "upslow" {
+			dl += 10 * time.Second
+		}
 		if err := writeParts(c, data, part, dl); err != nil {
 			return "fail:write", err.Error()
 		}
@@ -173,6 +213,13 @@ func (bytesComp) Gen(r *Rand, tier string, emit func(string)) {
 			}
 		}
 	}
+	// every write size in a row on one connection (sizes are `from`=part .. `to`=len)
+	emit(fmt.Sprintf("dns sweep 150 1 %d", r.Next()%1000))
+	emit(fmt.Sprintf("tcp sweep 400 1 %d", r.Next()%1000))
+	emit(fmt.Sprintf("ws sweep 400 1 %d", r.Next()%1000))
+	emit(fmt.Sprintf("udp sweep 200 1 %d", r.Next()%1000))
+	// the application writes 2 MiB and closes while the target is slow to read
+	emit(fmt.Sprintf("tcp upslow 2097152 0 %d", r.Next()%1000))
 	emit(fmt.Sprintf("dns echo 1 0 %d", r.Next()%1000))
 	emit(fmt.Sprintf("dns echo 3000 0 %d", r.Next()%1000))
 	if tier == "thorough" {
@@ -186,6 +233,11 @@ func (bytesComp) Gen(r *Rand, tier string, emit func(string)) {
 			}
 			emit(fmt.Sprintf("%s echo 300 1 %d", c, r.Next()%1000))
 		}
+		emit(fmt.Sprintf("dns sweep 600 151 %d", r.Next()%1000))
+		emit(fmt.Sprintf("stdio sweep 400 1 %d", r.Next()%1000))
+		emit(fmt.Sprintf("tcptls sweep 400 1 %d", r.Next()%1000))
+		emit(fmt.Sprintf("ws upslow 2097152 0 %d", r.Next()%1000))
+		emit(fmt.Sprintf("tcptls upslow 2097152 0 %d", r.Next()%1000))
 		emit(fmt.Sprintf("dns echo 65536 0 %d", r.Next()%1000))
 		emit(fmt.Sprintf("dns up 20000 0 %d", r.Next()%1000))
 		emit(fmt.Sprintf("dns down 20000 0 %d", r.Next()%1000))
